@@ -77,7 +77,9 @@ def run_queries(setup, queries, batch=100, explain=True, jobs=None, watchdog=120
         for s in qs:
             if explain:
                 ops.append({"k": "exec", "sql": "EXPLAIN " + s})
-            ops.append({"k": "query", "sql": s})
+            # a panic is data; the session goes on (read-only queries), and every failing query is confirmed
+            # afterwards in a session without panics
+            ops.append({"k": "query", "sql": s, "stop_on_panic": False})
         return ops
 
     out = [None] * len(queries)
